@@ -5,7 +5,7 @@ sys.path.insert(0, os.path.dirname(os.path.dirname(os.path.abspath(__file__))))
 
 TECH = "explicit-state model checking of the implementation: exhaustive enumeration of {what}, every state judged by {oracle}"
 CLAIMS = {
- "C01": ("all verb histories over the 40-event full alphabet up to depth 3 (quick) / 4 (thorough) on adversarial, small and tall inputs",
+ "C01": ("all verb histories over the 42-event full alphabet up to depth 3 (quick) / 4 (thorough) on adversarial, small and tall inputs",
          "the differential oracle polars export == SQLite export",
          "trusted: polars and SQLite engines; reference model only for enabledness/order-totality; SQLite is the only executable SQL dialect here"),
  "C02": ("all histories of row-level verbs (31-event menu) up to depth 3 (quick) / 4 (thorough) on adversarial inputs and all 2-row tables",
